@@ -103,7 +103,7 @@ pub fn fd() {
     use crate::ops::Kind::*;
     run_profile(engine::Profile {
         name: "fd",
-        kinds: &[Open, OpenDirect, OpenExtract, Socket, SocketDirect, Pipe, PipeDirect, Accept, MultishotAccept, ToDirect, ToFile, SyncAll, WriteVec, ReadVec],
+        kinds: &[Open, OpenDirect, OpenExtract, Socket, SocketDirect, Pipe, PipeDirect, Accept, MultishotAccept, ToDirect, ToFile, SyncAll, WriteVec, ReadVec, SignalsToDirect, ReceiveSignal],
         sq_sizes: &[4, 2, 1, 8],
         cq_mults: &[2, 4, 1],
         max_steps: 40,
@@ -116,7 +116,7 @@ pub fn fd() {
         w_dropfd: 4,
         w_closefd: 3,
         w_relbuf: 0,
-        w_stdio: 1,
+        w_stdio: 2,
         p_ring_drop_early: 0,
         pools: false,
         tweak: |c| {
@@ -171,6 +171,23 @@ pub fn pool() {
 
 /// `teardown`: object graphs dropped in any order, the ring at any position.
 pub fn teardown() {
+    use crate::ops::Kind::*;
+    // A third of the runs concentrates on two-step (zero-copy) sends whose
+    // notification can outlive the Ring: memory the kernel still owns while
+    // every handle goes away in a drawn order.
+    if tape::chance(site::GEOM, 1, 3) {
+        run_profile(engine::Profile {
+            name: "teardown",
+            kinds: &[SendZc, SendVectoredZc, SendZc, Send, Recv, ReadVec, MultishotAccept, WriteVec],
+            max_steps: 20,
+            max_tasks: 5,
+            w_kcomplete: 4,
+            p_ring_drop_early: 75,
+            tweak: |c| c.p_notif_survives = 70,
+            ..BASE
+        });
+        return;
+    }
     run_profile(engine::Profile {
         name: "teardown",
         max_steps: 30,
@@ -194,7 +211,10 @@ pub fn pool_wrap() {
             ..KCfg::default()
         }
     });
-    let size = tape::pick(site::GEOM, &[2u16, 1, 4, 8]);
+    // Variant: a pool with more than 4096 buffers, all held, so that buffer ids
+    // need more than 12 bits.
+    let big_ids = tape::chance(site::GEOM, 1, 3);
+    let size = if big_ids { 8192u16 } else { tape::pick(site::GEOM, &[2u16, 1, 4, 8]) };
     let ring = alloc::a10(|| a10::Ring::config().with_submission_queue_size(4).build());
     let Ok(mut ring) = ring else {
         report::harness_error("ring build failed".to_string());
@@ -221,7 +241,7 @@ pub fn pool_wrap() {
     // Variant: the 16-bit buffer-group id generator wraps while this pool is
     // alive; the colliding registration fails (EEXIST) and must leave this
     // pool alone.
-    let id_wrap = tape::chance(site::GEOM, 1, 2);
+    let id_wrap = !big_ids && tape::chance(site::GEOM, 1, 2);
     if id_wrap {
         let mut refused = 0u32;
         for _ in 0..65_540u32 {
@@ -242,7 +262,13 @@ pub fn pool_wrap() {
             report::violation(v.class, v.detail);
         }
     }
-    let total = if id_wrap { 40 } else { 66_000 + tape::choose(site::GEOM, 3000) };
+    let total = if big_ids {
+        4200
+    } else if id_wrap {
+        40
+    } else {
+        66_000 + tape::choose(site::GEOM, 3000)
+    };
     let mut held: Vec<a10::io::ReadBuf> = Vec::new();
     let wk = std::task::Waker::noop();
     for i in 0..total {
@@ -269,14 +295,27 @@ pub fn pool_wrap() {
         if !matches!(r, Poll::Ready(Some(Ok(_)))) && !matches!(r, Poll::Ready(Some(Err(libc::ENOBUFS)))) {
             report::violation("pool.lost-buffer", format!("pool read #{i} ended with {r:?}"));
         }
+        // C02: the bytes returned are the bytes the kernel wrote for this read.
+        if let Poll::Ready(Some(Ok(got))) = &r {
+            let want = kernel::with(|k| k.records.iter().rev().find(|rec| rec.by_op == i).map(|rec| (made.expect)(rec, 0)));
+            if let Some(Ok(want)) = want {
+                if *got != want {
+                    report::violation(
+                        "res.wrong",
+                        format!("pool read #{i} returned {got:?}, the kernel wrote {want:?} into the buffer it selected"),
+                    );
+                }
+            }
+        }
         drop(t);
         for p in produced {
             if let Produced::ReadBuf(b) = p {
                 held.push(b);
             }
         }
-        // Keep 0..size-1 buffers around, release the rest.
-        while held.len() > tape::choose(site::TARGET, u32::from(size)) as usize {
+        // Keep 0..size-1 buffers around, release the rest (the big pool keeps
+        // them all: ids go up to the number of reads).
+        while !big_ids && held.len() > tape::choose(site::TARGET, u32::from(size)) as usize {
             let j = tape::choose(site::TARGET, held.len() as u32) as usize;
             let b = held.swap_remove(j);
             alloc::a10(|| drop(b));
